@@ -77,14 +77,14 @@ CHECKS = {
             {'fn': H + 'H_C03_1_Erase', 'over': {'max-paths': 60000}},
             {'fn': H + 'H_C03_1a_EraseJournalPQ', 'over': {'max-paths': 60000}},
             {'fn': H + 'H_C03_3_Keep', 'over': {'max-paths': 60000}},
-            {'fn': H + 'H_C03_1b_ErasePQ', 'over': {'max-paths': 400000}, 'thorough_only': True},
-            {'fn': H + 'H_C03_1c_EraseQQ', 'over': {'max-paths': 400000}, 'thorough_only': True},
-            {'fn': H + 'H_C03_2_Nesting', 'over': {'max-paths': 400000}, 'thorough_only': True},
+            {'fn': H + 'H_C03_1b_ErasePQ', 'over': {'max-paths': 400000, 'max-decisions': 1500}, 'thorough_only': True},
+            {'fn': H + 'H_C03_1c_EraseQQ', 'over': {'max-paths': 400000, 'max-decisions': 1500}, 'thorough_only': True},
+            {'fn': H + 'H_C03_2_Nesting', 'over': {'max-paths': 400000, 'max-decisions': 1500}, 'thorough_only': True},
         ],
         'level_text': 'Metamorphic self-composition on the real context-based StateDB (vm.NewStateDB over the real sdk.Context branching): "P; snapshot; Q; revert" is compared with "P" in two identical symbolic worlds, for 14 operation kinds incl. a keeper write through the current context (what a stateful precompile does); z3 decides equality of every StateDB getter, of all stores after commit and of the event sequence on every path.',
         'level_note': 'The EVM interpreter and real call frames are not executed: frames are modelled as Snapshot/RevertToSnapshot brackets around StateDB operations, which is exactly the interface the interpreter uses. Staking/distribution effects are represented by a bank write through GetCurrentContext() (the revert mechanism, context branching, is the real one).',
         'bounds': SDB_BOUNDS + ['quick: |P|=0,|Q|=1 over all 14 kinds with rich account a (code/storage optional); |P|=1,|Q|=1 over the 7 journal kinds; keep (no revert) with 1-2 extra snapshots',
-                                'thorough: |P|=1,|Q|=1 and |Q|=2 over all 14 kinds (plain accounts), two-level nesting incl. stale snapshot id'],
+                                'thorough: |P|=1,|Q|=1 and |Q|=2 with one operation over all 14 kinds and the other over 10 representative kinds (one per mechanism; all 14 x 14 pairs are 105,000 paths per harness and were not run clean), plain accounts; two-level nesting incl. stale snapshot id'],
         'outside': ['contract call trees executed by the EVM interpreter', 'effects inside SDK staking/distribution keepers', 'more than 2 operations per frame, more than 2 nesting levels'],
         'assumptions': SDB_ASSUMPTIONS,
     },
